@@ -360,9 +360,9 @@ def step (d : DState) (line : String) : DState × String :=
     match conn.toNat?, cid.toInt? with
     | some c, some i => ({ d with st := d.st.connect c i }, "ok")
     | _, _ => (d, "bad-op")
-  | "X" :: conn :: t0 :: _t1 :: reply :: _argc :: args =>
+  | "X" :: conn :: t0 :: t1 :: reply :: _argc :: args =>
     match conn.toNat?, t0.toInt?, hexArgs args with
-    | some c, some now, some argv =>
+    | some c, some now0, some argv =>
       let implV : Option Value :=
         if reply == "PANIC" then none
         else match fromHex reply with
@@ -372,8 +372,23 @@ def step (d : DState) (line : String) : DState × String :=
           | none => none
       if reply != "PANIC" && implV.isNone then (d, "DIFF unparsable-reply " ++ reply)
       else
-        let ctx : Ctx := { q := d.q, now := now, impl := implV }
-        let o := dispatch ctx d.st c argv
+        -- The implementation read its clock somewhere between t0 and t1. When a deadline lies in
+        -- between (the machine was busy: the generator keeps 4 ms away from every deadline it set), the
+        -- command is judged at the instant whose outcome the implementation's reply matches.
+        let now1 := (t1.toInt?).getD now0
+        let ctx0 : Ctx := { q := d.q, now := now0, impl := implV }
+        let oA := dispatch ctx0 d.st c argv
+        let straddles : Bool := d.st.heap.any fun (_, db) => db.keys.any fun (_, e) =>
+          match e.exp with | some dl => decide (now0 ≤ dl) && decide (dl ≤ now1) | none => false
+        let oB := if straddles then dispatch { ctx0 with now := now1 } d.st c argv else oA
+        let useB : Bool :=
+          straddles && outKey oA != outKey oB &&
+            (match implV with
+             | some g => !(replyMatches oA.hint oA.reply g) && replyMatches oB.hint oB.reply g
+             | none => oA.crash.isNone && oB.crash.isSome)
+        let now := if useB then now1 else now0
+        let ctx : Ctx := { ctx0 with now := now }
+        let o := if useB then oB else oA
         -- which known deviations mattered on this step?
         let specO := dispatch { ctx with q := Quirks.none } d.st c argv
         let hits : List String :=
